@@ -1596,3 +1596,246 @@ Proof.
   - exists 1. eexists. vm_compute. split; reflexivity.
   - vm_compute. discriminate.
 Qed.
+
+(* =========================================================================================== PART C *)
+(* what the regenerated bodies of push(unique_ptr<T, Deleter>&&) and Deleter::operator() do *)
+Lemma push_handle_releases_into_this_pool : forall s j h, push_handle s j h = push_raw s j (hobj h).
+Proof. intros. unfold push_handle. reflexivity. Qed.
+Lemma deleter_returns_to_bound_pool : forall s o b, deleter_route s {| hobj := o; hbind := Some b |} = push_raw s b o.
+Proof. intros. unfold deleter_route. reflexivity. Qed.
+
+(* push(std::move(handle)) into pool j does exactly what push(unique_ptr<T>{handle.release()}) into pool j does,
+   whatever pool the handle's Deleter is bound to *)
+Theorem pc_push_handle_routes_here : forall s j, cstep s (CPushH j) = cstep s (CPushU j).
+Proof. intros. cbn [cstep]. destruct (hands s) as [|h hs]; auto; rewrite ?push_handle_releases_into_this_pool; reflexivity. Qed.
+
+Definition cop_pool (o : cop) : nat := match o with CPop j | CTry j | CPushH j | CPushU j => j | _ => 0 end.
+Definition cq_all (s : cst) : list nat := flat_map cq (cpools s).
+Definition chome_of (s : cst) (o : nat) : option nat :=
+  match find (fun e => Nat.eqb (fst e) o) (chome s) with Some e => Some (snd e) | None => None end.
+
+Lemma cnt_cq_set_nth : forall (l : list cpool) j p p' x, nth_error l j = Some p ->
+  cnt (flat_map cq (set_nth j p' l)) x + cnt (cq p) x = cnt (flat_map cq l) x + cnt (cq p') x.
+Proof.
+  induction l; intros [|j] p p' x H; cbn in *; try discriminate.
+  - inversion H; subst. rewrite !cnt_app. lia.
+  - rewrite !cnt_app. specialize (IHl j p p' x H). lia.
+Qed.
+Lemma cnt_map_app1 : forall (l : list handle) h x, cnt (map hobj (l ++ [h])) x = cnt (map hobj l) x + cnt [hobj h] x.
+Proof. intros. rewrite map_app, cnt_app. reflexivity. Qed.
+
+Record CInv (s : cst) : Prop := {
+  c_cnt : forall x, cnt (cq_all s) x + cnt (map hobj (hands s)) x + cnt (cdestroyed s) x + cnt (cleaked s) x =
+                    if x <? cfresh s then 1 else 0;
+  c_bind : forall h b, In h (hands s) -> hbind h = Some b -> b < length (cpools s) /\ chome_of s (hobj h) = Some b;
+  c_home : forall j p o, nth_error (cpools s) j = Some p -> In o (cq p) -> chome_of s o = Some j }.
+
+Lemma chome_cons_same : forall s o j l, chome s = (o, j) :: l -> chome_of s o = Some j.
+Proof. intros s o j l H. unfold chome_of. rewrite H. cbn. rewrite Nat.eqb_refl. reflexivity. Qed.
+Lemma chome_cons_other : forall s s' o o' j, chome s' = (o', j) :: chome s -> o <> o' -> chome_of s' o = chome_of s o.
+Proof. intros s s' o o' j H N. unfold chome_of. rewrite H. cbn. destruct (Nat.eqb_spec o' o); [congruence | reflexivity]. Qed.
+
+(* an object that is somewhere (pooled or held) occurs exactly once overall *)
+Lemma cinv_unique : forall s x, CInv s -> cnt (cq_all s) x + cnt (map hobj (hands s)) x <= 1.
+Proof. intros s x I. pose proof (c_cnt _ I x). destruct (x <? cfresh s); lia. Qed.
+Lemma cnt_in : forall l x, In x l -> 1 <= cnt l x.
+Proof. intros. unfold cnt. apply (count_occ_In Nat.eq_dec) in H. lia. Qed.
+Lemma in_cq_all : forall s j p o, nth_error (cpools s) j = Some p -> In o (cq p) -> In o (cq_all s).
+Proof. intros. unfold cq_all. apply in_flat_map. exists p. split; auto. eapply nth_error_In; eauto. Qed.
+
+Lemma cinv_push_raw : forall s j o hs, CInv s -> j < length (cpools s) ->
+  forall h r, hands s = h :: hs -> hobj h = o -> CInv (with_hands (fst (push_raw s j o)) hs r).
+Proof.
+  intros s j o hs I Hj h r Hh Ho.
+  destruct (nth_error (cpools s) j) as [p|] eqn:Hp; [|apply nth_error_None in Hp; lia].
+  assert (U : forall x, cnt (cq_all s) x + cnt (map hobj hs) x + cnt [o] x <= 1).
+  { intros x. pose proof (cinv_unique s x I) as H. rewrite Hh in H. cbn [map] in H. rewrite (cnt_cons (hobj h)), Ho in H. lia. }
+  assert (NOQ : forall i q, nth_error (cpools s) i = Some q -> ~ In o (cq q)).
+  { intros i q Hq Hin. pose proof (cnt_in _ _ (in_cq_all _ _ _ _ Hq Hin)). specialize (U o). rewrite cnt_one, Nat.eqb_refl in U. lia. }
+  assert (NOH : forall h', In h' hs -> hobj h' <> o).
+  { intros h' Hin E. assert (1 <= cnt (map hobj hs) o) by (apply cnt_in; rewrite <- E; apply in_map; auto).
+    specialize (U o). rewrite cnt_one, Nat.eqb_refl in U. lia. }
+  unfold push_raw. rewrite (nth_error_nth _ _ cpool0 Hp). cbn [fst snd].
+  set (drop := negb (cstrict p) && pool_drop (zn (ccap p)) (zn (length (cq p)))).
+  constructor; unfold with_hands, cq_all, chome_of; cbn [cpools hands cfresh cdestroyed cleaked chome].
+  - intros x. pose proof (c_cnt _ I x) as C. unfold cq_all in C. rewrite Hh in C. cbn [map] in C. rewrite (cnt_cons (hobj h)), Ho in C.
+    pose proof (cnt_cq_set_nth (cpools s) j p {| cstrict := cstrict p; ccap := ccap p; cq := if drop then cq p else cq p ++ [o]; crec := crec p ++ [o] |} x Hp) as Q.
+    cbn [cq] in Q. destruct drop; rewrite ?cnt_app in *; lia.
+  - intros h' b Hin Hb. rewrite length_set_nth. assert (In h' (hands s)) by (rewrite Hh; right; auto).
+    destruct (c_bind _ I h' b H Hb) as [A B]. split; auto. cbn. destruct (Nat.eqb_spec o (hobj h')) as [E|E]; [exfalso; eapply NOH; eauto | exact B].
+  - intros i q x Hq Hin. cbn. destruct (Nat.eq_dec i j) as [->|Hne].
+    + erewrite nth_set_nth_eq in Hq by eauto. inversion Hq; subst q. cbn [cq] in Hin.
+      destruct (Nat.eqb_spec o x) as [E|E]; [reflexivity|].
+      assert (In x (cq p)) by (destruct drop; auto; apply in_app_or in Hin; destruct Hin as [?|[?|[]]]; auto; congruence).
+      apply (c_home _ I j p x Hp H).
+    + rewrite nth_set_nth_ne in Hq by auto. destruct (Nat.eqb_spec o x) as [E|E].
+      * subst. exfalso. eapply NOQ; eauto.
+      * apply (c_home _ I i q x Hq Hin).
+Qed.
+
+Lemma cinv_hands : forall s hs r, CInv s -> (forall x, cnt (map hobj hs) x = cnt (map hobj (hands s)) x) ->
+  (forall h, In h hs -> In h (hands s)) -> CInv (with_hands s hs r).
+Proof.
+  intros s hs r I C H. constructor; unfold with_hands, cq_all, chome_of; cbn [cpools hands cfresh cdestroyed cleaked chome].
+  - intros x. rewrite C. apply (c_cnt _ I).
+  - intros h b Hin Hb. apply (c_bind _ I h b (H _ Hin) Hb).
+  - apply (c_home _ I).
+Qed.
+
+Lemma cinv_lt : forall s x, CInv s -> 1 <= cnt (cq_all s) x + cnt (map hobj (hands s)) x -> x < cfresh s.
+Proof. intros s x I H. pose proof (c_cnt _ I x) as C. destruct (Nat.ltb_spec x (cfresh s)); auto. lia. Qed.
+
+Lemma cinv_take : forall s j p x rest, CInv s -> nth_error (cpools s) j = Some p -> cq p = x :: rest -> CInv (take_from s j x rest).
+Proof.
+  intros s j p x rest I Hp Hq. unfold take_from. rewrite (nth_error_nth _ _ cpool0 Hp).
+  assert (Hj : j < length (cpools s)) by (apply nth_error_Some; congruence).
+  constructor; unfold cq_all, chome_of; cbn [cpools hands cfresh cdestroyed cleaked chome].
+  - intros y. pose proof (c_cnt _ I y) as C. unfold cq_all in C.
+    pose proof (cnt_cq_set_nth (cpools s) j p {| cstrict := cstrict p; ccap := ccap p; cq := rest; crec := crec p |} y Hp) as Q.
+    cbn [cq] in Q. rewrite Hq, (cnt_cons x rest) in Q. rewrite cnt_map_app1. cbn [hobj]. lia.
+  - intros h b Hin Hb. rewrite length_set_nth. apply in_app_or in Hin. destruct Hin as [Hin|[<-|[]]].
+    + apply (c_bind _ I h b Hin Hb).
+    + cbn in Hb. inversion Hb; subst b. split; auto. cbn [hobj]. apply (c_home _ I j p x Hp). rewrite Hq. left. auto.
+  - intros i q y Hi Hin. destruct (Nat.eq_dec i j) as [->|Hne].
+    + erewrite nth_set_nth_eq in Hi by eauto. inversion Hi; subst q. cbn [cq] in Hin. apply (c_home _ I j p y Hp). rewrite Hq. right. auto.
+    + rewrite nth_set_nth_ne in Hi by auto. apply (c_home _ I i q y Hi Hin).
+Qed.
+
+Lemma cinv_step : forall s o, CInv s -> cop_pool o < length (cpools s) -> CInv (cstep s o).
+Proof.
+  intros s o I Hj. destruct o as [j|j| |j|j| |]; cbn [cop_pool] in Hj; cbn [cstep].
+  - (* pop *) destruct (nth_error (cpools s) j) as [p|] eqn:Hp; [|apply nth_error_None in Hp; lia].
+    rewrite (nth_error_nth _ _ cpool0 Hp). destruct (cq p) as [|x rest] eqn:Hq.
+    + destruct (cstrict p).
+      * apply cinv_hands; auto.
+      * (* the creator makes a fresh object, handed out bound to pool j *)
+        assert (FR : forall x, 1 <= cnt (cq_all s) x + cnt (map hobj (hands s)) x -> x <> cfresh s).
+        { intros x H E. pose proof (cinv_lt s x I H). lia. }
+        constructor; unfold cq_all, chome_of; cbn [cpools hands cfresh cdestroyed cleaked chome].
+        -- intros y. pose proof (c_cnt _ I y) as C. unfold cq_all in C. rewrite cnt_map_app1. cbn [hobj]. rewrite cnt_one.
+           destruct (Nat.eqb_spec (cfresh s) y); destruct (Nat.ltb_spec y (cfresh s)); destruct (Nat.ltb_spec y (S (cfresh s))); lia.
+        -- intros h b Hin Hb. apply in_app_or in Hin. destruct Hin as [Hin|[<-|[]]].
+           ++ destruct (c_bind _ I h b Hin Hb) as [A B]. split; auto. cbn.
+              destruct (Nat.eqb_spec (cfresh s) (hobj h)) as [E|E]; [|exact B]. exfalso. apply (FR (hobj h)); auto.
+              assert (1 <= cnt (map hobj (hands s)) (hobj h)) by (apply cnt_in; apply in_map; auto). lia.
+           ++ cbn in Hb. inversion Hb; subst b. split; auto. cbn. rewrite Nat.eqb_refl. reflexivity.
+        -- intros i q y Hi Hin. cbn. destruct (Nat.eqb_spec (cfresh s) y) as [E|E]; [|apply (c_home _ I i q y Hi Hin)].
+           exfalso. apply (FR y); auto. pose proof (cnt_in _ _ (in_cq_all _ _ _ _ Hi Hin)). lia.
+    + eapply cinv_take; eauto.
+  - (* try_pop *) destruct (nth_error (cpools s) j) as [p|] eqn:Hp; [|apply nth_error_None in Hp; lia].
+    rewrite (nth_error_nth _ _ cpool0 Hp). destruct (cq p) as [|x rest] eqn:Hq; [apply cinv_hands; auto | eapply cinv_take; eauto].
+  - (* new handle, bound to no pool *)
+    constructor; unfold cq_all, chome_of; cbn [cpools hands cfresh cdestroyed cleaked chome].
+    + intros y. pose proof (c_cnt _ I y) as C. unfold cq_all in C. rewrite cnt_map_app1. cbn [hobj]. rewrite cnt_one.
+      destruct (Nat.eqb_spec (cfresh s) y); destruct (Nat.ltb_spec y (cfresh s)); destruct (Nat.ltb_spec y (S (cfresh s))); lia.
+    + intros h b Hin Hb. apply in_app_or in Hin. destruct Hin as [Hin|[<-|[]]]; [apply (c_bind _ I h b Hin Hb) | discriminate Hb].
+    + apply (c_home _ I).
+  - (* push, handle overload *) destruct (hands s) as [|h hs] eqn:Hh.
+    + apply cinv_hands; auto; rewrite Hh; auto.
+    + rewrite push_handle_releases_into_this_pool. destruct (push_raw s j (hobj h)) as [s1 d] eqn:E.
+      change s1 with (fst (s1, d)). rewrite <- E. eapply cinv_push_raw; eauto.
+  - (* push, unique_ptr<T> overload *) destruct (hands s) as [|h hs] eqn:Hh.
+    + apply cinv_hands; auto; rewrite Hh; auto.
+    + destruct (push_raw s j (hobj h)) as [s1 d] eqn:E. change s1 with (fst (s1, d)). rewrite <- E. eapply cinv_push_raw; eauto.
+  - (* the handle dies *) destruct (hands s) as [|h hs] eqn:Hh.
+    + apply cinv_hands; auto; rewrite Hh; auto.
+    + destruct h as [o [b|]].
+      * rewrite deleter_returns_to_bound_pool. destruct (c_bind _ I {| hobj := o; hbind := Some b |} b) as [Hb _]; [rewrite Hh; left; auto | reflexivity |].
+        destruct (push_raw s b o) as [s1 d] eqn:E. change s1 with (fst (s1, d)). rewrite <- E. eapply cinv_push_raw; eauto.
+      * unfold deleter_route. cbn [hbind hobj].
+        constructor; unfold with_hands, cq_all, chome_of; cbn [cpools hands cfresh cdestroyed cleaked chome].
+        -- intros y. pose proof (c_cnt _ I y) as C. unfold cq_all in C. rewrite Hh in C. cbn [map hobj] in C. rewrite (cnt_cons o) in C. rewrite cnt_app. lia.
+        -- intros h b Hin Hb. apply (c_bind _ I h b); auto. rewrite Hh. right. auto.
+        -- apply (c_home _ I).
+  - (* move *) destruct (hands s) as [|h hs] eqn:Hh.
+    + apply cinv_hands; auto; rewrite Hh; auto.
+    + apply cinv_hands; auto; rewrite Hh.
+      * intros x. rewrite cnt_map_app1. cbn [map]. rewrite (cnt_cons (hobj h) (map hobj hs)). lia.
+      * intros h' Hin. apply in_app_or in Hin. destruct Hin as [?|[<-|[]]]; [right|left]; auto.
+Qed.
+
+Definition cops_ok (n : nat) (ops : list cop) : Prop := Forall (fun o => cop_pool o < n) ops.
+Lemma cstep_npools : forall s o, length (cpools (cstep s o)) = length (cpools s).
+Proof.
+  intros s o. destruct o as [j|j| |j|j| |]; cbn [cstep].
+  - destruct (cq (nth j (cpools s) cpool0)); [destruct (cstrict _)|]; cbn; rewrite ?length_set_nth; reflexivity.
+  - destruct (cq (nth j (cpools s) cpool0)); cbn; rewrite ?length_set_nth; reflexivity.
+  - reflexivity.
+  - destruct (hands s); [reflexivity|]. rewrite push_handle_releases_into_this_pool. cbn. apply length_set_nth.
+  - destruct (hands s); [reflexivity|]. cbn. apply length_set_nth.
+  - destruct (hands s) as [|[o [b|]] hs]; [reflexivity| |reflexivity]. rewrite deleter_returns_to_bound_pool. cbn. apply length_set_nth.
+  - destruct (hands s); reflexivity.
+Qed.
+Lemma cinv_init : forall modes cap, CInv (cinit modes cap).
+Proof.
+  intros. constructor; unfold cq_all, chome_of; cbn [cinit cpools hands cfresh cdestroyed cleaked chome].
+  - intros x. replace (flat_map cq (map (fun m => {| cstrict := m; ccap := cap; cq := []; crec := [] |}) modes)) with (@nil nat)
+      by (induction modes; cbn; auto). reflexivity.
+  - intros h b [].
+  - intros j p o H Hin. apply nth_error_In in H. apply in_map_iff in H. destruct H as (m & <- & _). destruct Hin.
+Qed.
+Theorem pc_inv : forall ops modes cap, cops_ok (length modes) ops -> CInv (crun (cinit modes cap) ops).
+Proof.
+  intros ops modes cap. unfold crun.
+  assert (G : forall s, CInv s -> cops_ok (length (cpools s)) ops -> CInv (fold_left cstep ops s)).
+  { induction ops as [|o ops IH]; intros s I OK; cbn [fold_left]; auto. inversion OK; subst.
+    apply IH; [apply cinv_step; auto | rewrite cstep_npools; auto]. }
+  intros OK. apply G; [apply cinv_init | cbn; rewrite map_length; exact OK].
+Qed.
+
+(* nothing is lost, duplicated or destroyed twice across all pools and handles *)
+Theorem pc_conservation : forall s, CInv s ->
+  Permutation (cq_all s ++ map hobj (hands s) ++ cdestroyed s ++ cleaked s) (seq 0 (cfresh s)).
+Proof. intros s I. apply perm_of_cnt. intros x. rewrite !cnt_app, cnt_seq0. pose proof (c_cnt _ I x). lia. Qed.
+
+(* the only way to lose an object is to let a handle that is bound to no pool die *)
+Theorem pc_leak_only_by_unbound_die : forall s o, cleaked (cstep s o) = cleaked s \/
+  (o = CDie /\ exists h hs, hands s = h :: hs /\ hbind h = None /\ cleaked (cstep s o) = cleaked s ++ [hobj h]).
+Proof.
+  intros s o. destruct o as [j|j| |j|j| |]; cbn [cstep].
+  - left. destruct (cq (nth j (cpools s) cpool0)); [destruct (cstrict _)|]; reflexivity.
+  - left. destruct (cq (nth j (cpools s) cpool0)); reflexivity.
+  - left. reflexivity.
+  - left. destruct (hands s); [reflexivity|]. rewrite push_handle_releases_into_this_pool. reflexivity.
+  - left. destruct (hands s); reflexivity.
+  - destruct (hands s) as [|[x [b|]] hs] eqn:Hh; [left; reflexivity | left; rewrite deleter_returns_to_bound_pool; reflexivity |].
+    right. split; auto. exists {| hobj := x; hbind := None |}, hs. repeat split; auto.
+  - left. destruct (hands s); reflexivity.
+Qed.
+
+(* push(handle) into pool j: the object is appended to pool j's free list (or destroyed when an auto-creating pool j
+   is at capacity), pool j's recycler ran on it, every other pool is untouched - whatever the handle was bound to *)
+Theorem pc_push_handle_spec : forall s j p h hs, nth_error (cpools s) j = Some p -> hands s = h :: hs ->
+  let drop := negb (cstrict p) && pool_drop (zn (ccap p)) (zn (length (cq p))) in
+  let s' := cstep s (CPushH j) in
+  nth_error (cpools s') j = Some {| cstrict := cstrict p; ccap := ccap p; cq := if drop then cq p else cq p ++ [hobj h];
+                                    crec := crec p ++ [hobj h] |} /\
+  (forall i, i <> j -> nth_error (cpools s') i = nth_error (cpools s) i) /\
+  hands s' = hs /\ cdestroyed s' = (if drop then cdestroyed s ++ [hobj h] else cdestroyed s) /\ cleaked s' = cleaked s /\
+  chome_of s' (hobj h) = Some j.
+Proof.
+  intros s j p h hs Hp Hh drop s'. unfold s'. cbn [cstep]. rewrite Hh, push_handle_releases_into_this_pool.
+  unfold push_raw. rewrite (nth_error_nth _ _ cpool0 Hp). cbn [with_hands cpools hands cdestroyed cleaked]. fold drop.
+  split; [eapply nth_set_nth_eq; eauto|]. split; [intros i Hi; apply nth_set_nth_ne; auto|].
+  repeat split; auto. unfold chome_of. cbn. rewrite Nat.eqb_refl. reflexivity.
+Qed.
+
+(* per pool: an object whose home is pool j is in j's free list or in a handle bound to j *)
+Theorem pc_pool_owns : forall s o j, CInv s -> chome_of s o = Some j ->
+  1 <= cnt (cq_all s) o + cnt (map hobj (hands s)) o ->
+  (exists p, nth_error (cpools s) j = Some p /\ In o (cq p)) \/
+  (exists h, In h (hands s) /\ hobj h = o /\ (hbind h = Some j \/ hbind h = None)).
+Proof.
+  intros s o j I Hm L. destruct (Nat.eq_dec (cnt (cq_all s) o) 0) as [Z|NZ].
+  - right. assert (In o (map hobj (hands s))) by (apply (count_occ_In Nat.eq_dec); unfold cnt in *; lia).
+    apply in_map_iff in H. destruct H as (h & E & Hin). exists h. split; auto. split; auto.
+    destruct (hbind h) as [b|] eqn:B; auto. left. destruct (c_bind _ I h b Hin B) as [_ Hb]. rewrite E in Hb. congruence.
+  - left. assert (In o (cq_all s)) by (apply (count_occ_In Nat.eq_dec); unfold cnt in *; lia).
+    unfold cq_all in H. apply in_flat_map in H. destruct H as (p & Hin & Ho). apply In_nth_error in Hin. destruct Hin as [i Hi].
+    pose proof (c_home _ I i p o Hi Ho) as Hh. assert (i = j) by congruence. subst. eauto.
+Qed.
+
+Lemma ex_route : let s := crun (cinit [true; true] 2) [CNewH; CPushH 0; CPop 0; CPushH 1; CTry 0; CTry 1] in
+  map cq (cpools s) = [[]; []] /\ map hobj (hands s) = [0] /\ map hbind (hands s) = [Some 1] /\ cleaked s = [] /\
+  clog s = [CNew 0; CPushed false; CGot 0; CPushed false; CNone; CGot 0].
+Proof. vm_compute. repeat split. Qed.
